@@ -29,7 +29,7 @@ import (
 
 const (
 	tok        = "VERIFSENT"
-	realTok    = "VERIFSENT_REAL" // appears in every real file's content and in the real env value
+	realTok    = "VERIFSENT_REAL"  // appears in every real file's content and in the real env value
 	realOnlyTk = "VERIFSENT_ronly" // the name of a file that exists only in the real tree
 	envCanary  = "VERIFSENT_ENV"
 	realEnvVal = "real-VERIFSENT_REAL_env"
@@ -502,7 +502,11 @@ func randomRecipe(r *mon.Rand, t target, i int) Recipe {
 	n := r.Intn(4)
 	args := make([]string, n)
 	for k := range args {
+		// mostly strings (what nearly every operation expects first), sometimes anything
 		args[k] = mon.Pick(r, randArgPool)
+		for tries := 0; tries < 2 && !strings.HasPrefix(args[k], `"`) && r.Chance(2, 3); tries++ {
+			args[k] = mon.Pick(r, randArgPool)
+		}
 	}
 	name := t.Expr
 	if t.File {
